@@ -101,6 +101,8 @@ WRITE_SITE_FUNCS: dict[tuple[int, int], str] = {}
 COVERED: dict[tuple[int, int], int] = {}     # (file index, line) -> hits (this process)
 EXECUTABLE_LINES: set[tuple[int, int]] = set()
 _code_file: dict[int, int] = {}              # id(code) -> file index
+WITH_LINES: set[tuple[int, int]] = set()     # (file index, line) of `with` statements
+_WITH_ENTRY: dict[tuple[int, int], int] = {}  # (id(code), line) -> bytecode offset of the ENTRY of that with statement
 
 
 def set_ctx(ctx: Ctx | None) -> None:
@@ -144,9 +146,16 @@ def _callback(code: types.CodeType, line: int):
         ctx.evicted_site = key
         ctx.evict_fn()
     if n == ctx.fault_at:
-        ctx.fault_at = -1
-        ctx.fault_site = key
-        raise ctx.fault_exc
+        if key in WITH_LINES and sys._getframe(1).f_lasti > _WITH_ENTRY.get((id(code), line), 1 << 30):
+            # CPython attributes the call of __exit__ to the line of the `with` statement: this is the event between
+            # the end of the block and __exit__. An exception delivered exactly here skips __exit__ -- a limitation
+            # of the with statement itself (PEP 419), not something a library can repair -- so the fault is delivered
+            # one line event later instead.
+            ctx.fault_at = n + 1
+        else:
+            ctx.fault_at = -1
+            ctx.fault_site = key
+            raise ctx.fault_exc
     if n == ctx.yield_at or n == ctx.force_at:
         ctx.on_yield(ctx, key)
     if n > ctx.cap:
@@ -194,6 +203,10 @@ def _scan_file(path: str, fidx: int) -> None:
                         self._mark(node)
                     elif isinstance(tt, ast.Name) and tt.id in self.globals[-1]:
                         self._mark(node)  # rebinding a module-level / enclosing name publishes shared state
+            self.generic_visit(node)
+
+        def visit_With(self, node):
+            WITH_LINES.add((fidx, node.lineno))
             self.generic_visit(node)
 
         def visit_AugAssign(self, node):
@@ -284,6 +297,9 @@ def install() -> None:
         for (_s, _e, ln) in c.co_lines():
             if ln is not None and c.co_name != "<module>":
                 EXECUTABLE_LINES.add((fidx, ln))
+            if ln is not None and (fidx, ln) in WITH_LINES:
+                k_ = (id(c), ln)
+                _WITH_ENTRY[k_] = min(_WITH_ENTRY.get(k_, 1 << 30), _s)
         mon.set_local_events(TOOL, c, mon.events.LINE)
     mon.register_callback(TOOL, mon.events.LINE, _callback)
     _installed = True
